@@ -19,9 +19,10 @@ Proof.
        | KDeque ml => do d <- conv_elems; Ok (conv (tp_seq k) (PTuple [maxlen_val ml; d]))
        | KBytearray => Ok (conv (tp_seq k) (PTuple l))
        | KArray c => Ok (conv (tp_seq k) (PTuple [PStr c; PTuple l]))
-       | KNd _ d sh =>
-           do items <- (if str_eqb d dt_obj then conv_elems else Ok (PTuple l));
-           Ok (conv (tp_seq k) (PTuple [PTuple (map (fun z => PInt z) sh); PStr d; items]))
+       | KNd msk d sh =>
+           do items <- (if str_eqb d dt_obj then conv_elems else Ok (PTuple (if msk then map mfill l else l)));
+           Ok (conv (tp_seq k) (PTuple ([PTuple (map (fun z => PInt z) sh); PStr d; items]
+                                        ++ (if msk then [PTuple (map mbit l)] else []))))
        end).
     rewrite H. reflexivity.
   - change (to_hashable fp (PSetv k l)) with
@@ -37,9 +38,10 @@ Definition seq_body (fp : bool) (k : seqkind) (l : list pyval) : result pyval :=
   | KDeque ml => do d <- conv_elems; Ok (conv (tp_seq k) (PTuple [maxlen_val ml; d]))
   | KBytearray => Ok (conv (tp_seq k) (PTuple l))
   | KArray c => Ok (conv (tp_seq k) (PTuple [PStr c; PTuple l]))
-  | KNd _ d sh =>
-      do items <- (if str_eqb d dt_obj then conv_elems else Ok (PTuple l));
-      Ok (conv (tp_seq k) (PTuple [PTuple (map (fun z => PInt z) sh); PStr d; items]))
+  | KNd msk d sh =>
+      do items <- (if str_eqb d dt_obj then conv_elems else Ok (PTuple (if msk then map mfill l else l)));
+      Ok (conv (tp_seq k) (PTuple ([PTuple (map (fun z => PInt z) sh); PStr d; items]
+                                   ++ (if msk then [PTuple (map mbit l)] else []))))
   end.
 Lemma th_seq : forall fp k l, py_hashable (PSeq k l) = false -> to_hashable fp (PSeq k l) = seq_body fp k l.
 Proof.
@@ -186,32 +188,17 @@ Proof. intros x H. destruct x as [a| | | | |]; simpl in H; try discriminate. des
 Lemma ints_hashable : forall sh, forallb py_hashable (map (fun z => PInt z) sh) = true.
 Proof. induction sh; simpl; auto. Qed.
 
-Lemma unmasked_not_maskedc : forall x, unmasked x = true -> is_maskedc x = false.
-Proof. intros x H. destruct x as [a| | | | |]; simpl; auto. destruct a; simpl in *; auto. Qed.
-
-Lemma seq_children : forall k l, wf (PSeq k l) = true -> unmasked (PSeq k l) = true ->
-  Forall (fun x => wf x = true /\ unmasked x = true) l.
+Lemma wf_seq_children : forall sk l, wf (PSeq sk l) = true -> (forall d sh, sk <> KNd true d sh) ->
+  forallb wf l = true.
 Proof.
-  intros k l Hwf Hum. simpl in Hwf. apply andb_true_iff in Hwf. destruct Hwf as [Hwf _].
-  unfold unmasked in Hum. simpl in Hum. rewrite forallb_forall in Hum.
-  apply Forall_forall. intros x Hx. specialize (Hum x Hx). split; auto.
-  assert (Hnm := unmasked_not_maskedc x Hum).
-  destruct k; try (rewrite forallb_forall in Hwf; auto; fail).
-  destruct masked; rewrite forallb_forall in Hwf; auto.
-  specialize (Hwf x Hx). rewrite Hnm in Hwf. exact Hwf.
+  intros sk l Hwf Hsk. simpl in Hwf. apply andb_true_iff in Hwf. destruct Hwf as [Hwf _].
+  destruct sk; auto. destruct masked; auto. exfalso. eapply Hsk; eauto.
 Qed.
 
-Lemma nd_elems_hashable : forall m d l,
-  str_eqb d dt_obj = false ->
-  forallb (fun x => (m && is_maskedc x) || elem_ok d x) l = true ->
-  forallb (fun x => negb (is_maskedc x)) l = true ->
-  forallb py_hashable l = true.
+Lemma elem_ok_scalar : forall d x, str_eqb d dt_obj = false -> elem_ok d x = true ->
+  (is_int x || is_float x || is_boolv x || is_strv x) = true.
 Proof.
-  intros m d l Hd H Hnm. apply forallb_forall. intros x Hx.
-  rewrite forallb_forall in H, Hnm. specialize (H x Hx). specialize (Hnm x Hx).
-  apply negb_true_iff in Hnm. rewrite Hnm, andb_false_r in H. simpl in H.
-  unfold elem_ok, dtype_class in H. rewrite Hd in H.
-  apply scalar_hashable.
+  intros d x Hd H. unfold elem_ok, dtype_class in H. rewrite Hd in H.
   destruct d as [|c0 [|c d']]; try discriminate.
   destruct (Ascii.eqb c "i" || Ascii.eqb c "u"); [rewrite H; auto|].
   destruct (Ascii.eqb c "f"); [rewrite H; rewrite ?orb_true_r; auto|].
@@ -220,35 +207,52 @@ Proof.
   discriminate.
 Qed.
 
+Lemma nd_fill_hashable : forall m d l,
+  str_eqb d dt_obj = false ->
+  forallb (fun x => (m && is_maskedc x) || elem_ok d x) l = true ->
+  forallb py_hashable (if m then map mfill l else l) = true.
+Proof.
+  intros m d l Hd H. rewrite forallb_forall in H.
+  assert (Hx : forall x, In x l -> py_hashable (if m then mfill x else x) = true).
+  { intros x Hx. specialize (H x Hx). unfold mfill. destruct m; cbn [andb] in H.
+    - destruct (is_maskedc x) eqn:E; [reflexivity|]. cbn [orb] in H. apply scalar_hashable.
+      rewrite (elem_ok_scalar d x Hd H). reflexivity.
+    - cbn [orb] in H. apply scalar_hashable. rewrite (elem_ok_scalar d x Hd H). reflexivity. }
+  destruct m; apply forallb_forall.
+  - intros y Hy. apply in_map_iff in Hy. destruct Hy as (x & <- & Hin). apply (Hx x Hin).
+  - intros x Hin. apply (Hx x Hin).
+Qed.
+Lemma mbits_hashable : forall l, forallb py_hashable (map mbit l) = true.
+Proof. induction l; simpl; auto. Qed.
+
 Theorem key_hashable : forall fp v k,
-  wf v = true -> unmasked v = true -> no_pandas v = true ->
+  wf v = true -> no_pandas v = true ->
   to_hashable fp v = Ok k -> py_hashable k = true.
 Proof.
   intros fp v. induction v as [a|sk l IH|sk l IH|mk kvs IH|n d i x|c i] using pyval_ind2;
-    intros k Hwf Hum Hnp Hth.
+    intros k Hwf Hnp Hth.
   - rewrite th_atom_eq in Hth. unfold th_atom in Hth. destruct (atom_hashable a) eqn:Ha.
     + inversion Hth; subst. exact Ha.
     + destruct a; try discriminate. destruct fp, picklable; try discriminate. inversion Hth; subst. reflexivity.
   - destruct (py_hashable (PSeq sk l)) eqn:Hh.
     { rewrite th_hashable in Hth by exact Hh. inversion Hth; subst. exact Hh. }
     rewrite th_seq in Hth by exact Hh.
-    assert (Hch := seq_children _ _ Hwf Hum).
     assert (Hnpl : forall x, In x l -> no_pandas x = true).
     { unfold no_pandas in Hnp. simpl in Hnp. rewrite forallb_forall in Hnp. exact Hnp. }
-    assert (HIH : Forall (fun x => forall y, to_hashable fp x = Ok y -> py_hashable y = true) l).
-    { rewrite Forall_forall in *. intros x Hx y Hy. destruct (Hch x Hx). eapply IH; eauto. }
-    assert (Hconv : forall d, hashable_iterable false (map (fun x => (x, to_hashable fp x)) l) = Ok d ->
-                              py_hashable d = true).
-    { intros d Hd. apply iterable_unsorted in Hd. destruct Hd as (out & -> & HF). simpl.
-      eapply forall2_hashable; eauto. }
+    assert (Hconv : (forall d sh, sk <> KNd true d sh) -> forall d,
+              hashable_iterable false (map (fun x => (x, to_hashable fp x)) l) = Ok d -> py_hashable d = true).
+    { intros Hsk d Hd. apply iterable_unsorted in Hd. destruct Hd as (out & -> & HF). simpl.
+      assert (Hch := wf_seq_children _ _ Hwf Hsk). rewrite forallb_forall in Hch.
+      eapply forall2_hashable; eauto. rewrite Forall_forall in *. intros x Hx y Hy. eapply IH; eauto. }
     unfold seq_body in Hth. simpl in Hwf. apply andb_true_iff in Hwf. destruct Hwf as [_ Hwf].
     destruct sk.
     + destruct (hashable_iterable false _) as [d|e] eqn:Hd; [|discriminate]. cbn [bind] in Hth.
-      inversion Hth; subst. apply conv_hashable. auto.
+      inversion Hth; subst. apply conv_hashable. apply Hconv; auto. discriminate.
     + destruct (hashable_iterable false _) as [d|e] eqn:Hd; [|discriminate]. cbn [bind] in Hth.
-      inversion Hth; subst. apply conv_hashable. auto.
+      inversion Hth; subst. apply conv_hashable. apply Hconv; auto. discriminate.
     + destruct (hashable_iterable false _) as [d|e] eqn:Hd; [|discriminate]. cbn [bind] in Hth.
-      inversion Hth; subst. apply conv_hashable. simpl. rewrite (Hconv d) by auto. destruct maxlen; reflexivity.
+      inversion Hth; subst. apply conv_hashable. simpl. rewrite (Hconv ltac:(discriminate) d) by auto.
+      destruct maxlen; reflexivity.
     + inversion Hth; subst. apply conv_hashable. simpl.
       apply forallb_forall. intros x Hx. rewrite forallb_forall in Hwf. apply scalar_hashable.
       rewrite (Hwf x Hx). rewrite ?orb_true_r. reflexivity.
@@ -257,15 +261,16 @@ Proof.
       apply scalar_hashable. unfold array_code_ok in Hwf.
       destruct (mem_str code _); [rewrite Hwf; reflexivity|].
       destruct (mem_str code _); [rewrite Hwf; rewrite ?orb_true_r; reflexivity|discriminate].
-    + assert (Hnm : forallb (fun x => negb (is_maskedc x)) l = true).
-      { apply forallb_forall. intros x Hx. rewrite Forall_forall in Hch. destruct (Hch x Hx) as [_ Hu].
-        rewrite (unmasked_not_maskedc x Hu). reflexivity. }
-      apply andb_true_iff in Hwf. destruct Hwf as [Hwf Hel].
+    + apply andb_true_iff in Hwf. destruct Hwf as [Hwf Hel]. apply andb_true_iff in Hwf. destruct Hwf as [Hwf _].
+      apply andb_true_iff in Hwf. destruct Hwf as [Hmo _].
       destruct (str_eqb dtype dt_obj) eqn:Hd.
-      * destruct (hashable_iterable false _) as [d|e] eqn:Hd'; [|discriminate]. cbn [bind] in Hth.
-        inversion Hth; subst. apply conv_hashable. simpl. rewrite ints_hashable. rewrite (Hconv d) by auto. reflexivity.
-      * cbn [bind] in Hth. inversion Hth; subst. apply conv_hashable. simpl. rewrite ints_hashable.
-        rewrite (nd_elems_hashable masked dtype l); auto.
+      * rewrite andb_true_r in Hmo. apply negb_true_iff in Hmo. subst masked.
+        destruct (hashable_iterable false _) as [d|e] eqn:Hd'; [|discriminate]. cbn [bind] in Hth.
+        inversion Hth; subst. apply conv_hashable. simpl. rewrite ints_hashable.
+        rewrite (Hconv ltac:(discriminate) d) by auto. reflexivity.
+      * cbn [bind] in Hth. inversion Hth; subst. apply conv_hashable.
+        assert (Hf := nd_fill_hashable masked dtype l Hd Hel). assert (Hb := mbits_hashable l).
+        destruct masked; cbn [app py_hashable forallb]; rewrite ints_hashable, Hf, ?Hb; reflexivity.
   - destruct (py_hashable (PSetv sk l)) eqn:Hh.
     { rewrite th_hashable in Hth by exact Hh. inversion Hth; subst. exact Hh. }
     rewrite th_set in Hth by exact Hh. unfold set_body in Hth.
@@ -283,14 +288,12 @@ Proof.
     simpl in Hwf. apply andb_true_iff in Hwf. destruct Hwf as [Hwf Hkind].
     apply andb_true_iff in Hwf. destruct Hwf as [Hwf _]. apply andb_true_iff in Hwf. destruct Hwf as [Hwfkv Hhk].
     rewrite forallb_forall in Hwfkv, Hhk.
-    unfold unmasked in Hum. simpl in Hum. rewrite forallb_forall in Hum.
     unfold no_pandas in Hnp. simpl in Hnp. rewrite forallb_forall in Hnp.
     rewrite Forall_forall in IH.
     assert (Hitems : forall it, In it (mk_items fp kvs) ->
               py_hashable (fst (fst it)) = true /\ (forall hv, snd it = Ok hv -> py_hashable hv = true)).
     { intros it Hit. apply in_mk_items in Hit. destruct Hit as (kv & Hkv & ->). simpl. split; [apply Hhk; auto|].
       intros hv Hhv. specialize (Hwfkv kv Hkv). apply andb_true_iff in Hwfkv. destruct Hwfkv as [_ Hwv].
-      specialize (Hum kv Hkv). apply andb_true_iff in Hum. destruct Hum as [_ Humv].
       specialize (Hnp kv Hkv). apply andb_true_iff in Hnp. destruct Hnp as [_ Hnpv].
       destruct (IH kv Hkv) as [_ IHv]. eapply IHv; eauto. }
     assert (Hmapping : forall srt d, hashable_mapping srt (mk_items fp kvs) = Ok d -> py_hashable d = true).
@@ -318,13 +321,6 @@ Proof.
   - unfold no_pandas in Hnp. simpl in Hnp. discriminate.
   - unfold no_pandas in Hnp. simpl in Hnp. discriminate.
 Qed.
-
-(* the full statement (every supported value gets a hashable key) fails on masked arrays *)
-Definition w_masked : pyval :=
-  PSeq (KNd true (s "<i8") [3%Z]) [PInt 1; PA AMasked; PInt 3].
-Lemma key_hashable_refuted :
-  exists v k, supported v = true /\ to_hashable true v = Ok k /\ py_hashable k = false.
-Proof. exists w_masked. eexists. split; [vm_compute; reflexivity|]. split; vm_compute; reflexivity. Qed.
 
 (* ================= sorting of set elements / mapping items under the guard ================= *)
 Ltac bsplit :=
@@ -656,6 +652,39 @@ Qed.
 Lemma ints_rel_refl : forall sh, rel_list false (map (fun z => PInt z) sh) (map (fun z => PInt z) sh) = true.
 Proof. induction sh as [|z sh IH]; simpl; auto. unfold atom_eq. simpl. rewrite Z.eqb_refl. exact IH. Qed.
 
+Lemma masked_rel : forall st x y, rel st x y = true -> is_maskedc x = is_maskedc y.
+Proof.
+  intros st x y H. destruct x as [a| | | | |]; destruct y as [b| | | | |]; try discriminate; try reflexivity.
+  rewrite rel_atom_l in H. destruct a, b; unfold atom_eq in H; cbn [numval] in H; try discriminate; reflexivity.
+Qed.
+
+Lemma fill_rel : forall l l', forallb atomic l = true -> rel_list true l l' = true ->
+  rel_list false (map mfill l) (map mfill l') = true /\ rel_list false (map mbit l) (map mbit l') = true.
+Proof.
+  induction l as [|x t IH]; intros l' Ha H; destruct l' as [|y t']; cbn [map rel_list] in *; try discriminate; auto.
+  cbn [forallb] in Ha. apply andb_true_iff in Ha. destruct Ha as [Hax Hat].
+  apply andb_true_iff in H. destruct H as [Hxy Ht]. destruct (IH t' Hat Ht) as [I1 I2]. rewrite I1, I2.
+  assert (E := masked_rel _ _ _ Hxy). unfold mfill, mbit. rewrite <- E. destruct (is_maskedc x).
+  - split; reflexivity.
+  - rewrite (atomic_rel x y Hax), Hxy. split; reflexivity.
+Qed.
+
+Lemma fill_rel_rev : forall l l', forallb atomic l = true ->
+  rel_list false (map mfill l) (map mfill l') = true -> rel_list false (map mbit l) (map mbit l') = true ->
+  rel_list true l l' = true.
+Proof.
+  induction l as [|x t IH]; intros l' Ha H Hb; destruct l' as [|y t']; cbn [map rel_list] in *; try discriminate; auto.
+  cbn [forallb] in Ha. apply andb_true_iff in Ha. destruct Ha as [Hax Hat].
+  apply andb_true_iff in H. destruct H as [Hxy Ht]. apply andb_true_iff in Hb. destruct Hb as [Hbxy Hbt].
+  rewrite (IH t' Hat Ht Hbt), andb_true_r.
+  unfold mbit in Hbxy. rewrite rel_atom_l in Hbxy. unfold atom_eq in Hbxy. cbn [numval] in Hbxy.
+  unfold mfill in Hxy.
+  destruct (is_maskedc x) eqn:Mx; destruct (is_maskedc y) eqn:My; try discriminate.
+  - destruct x as [a| | | | |]; try discriminate. destruct a; try discriminate.
+    destruct y as [b| | | | |]; try discriminate. destruct b; try discriminate. reflexivity.
+  - rewrite <- (atomic_rel x y Hax). exact Hxy.
+Qed.
+
 Lemma conv_elems_rel : forall fp l l' d d',
   Forall2 (fun x y => rel true x y = true) l l' ->
   Forall (fun x => forall y, g x = true -> g y = true -> rel true x y = true -> keq fp x y) l ->
@@ -850,14 +879,17 @@ Proof.
       * rewrite andb_true_r in Hwf. apply negb_true_iff in Hwf. subst masked.
         case_iter Hk d Hd.
         case_iter Hk' d' Hd'.
-        cbn [bind] in Hk, Hk'. inversion Hk; inversion Hk'; subst. rewrite conv_rel, str_eqb_refl.
+        cbn [bind app] in Hk, Hk'. inversion Hk; inversion Hk'; subst. rewrite conv_rel, str_eqb_refl.
         rewrite rel_tuple. cbn [rel_list]. rewrite rel_tuple, ints_rel_refl.
         rewrite rel_atom_l. unfold atom_eq. cbn [numval]. rewrite str_eqb_refl.
         rewrite (Hconv ltac:(discriminate) d d'); auto.
       * cbn [bind] in Hk, Hk'. inversion Hk; inversion Hk'; subst. rewrite conv_rel, str_eqb_refl.
-        rewrite rel_tuple. cbn [rel_list]. rewrite rel_tuple, ints_rel_refl.
-        rewrite rel_atom_l. unfold atom_eq. cbn [numval]. rewrite str_eqb_refl. rewrite rel_tuple.
-        rewrite rel_list_atomic; auto. eapply nd_elems_atomic; eauto.
+        assert (Hat : forallb atomic l = true) by (eapply nd_elems_atomic; eauto).
+        destruct (fill_rel l l' Hat Hl) as [Hf Hb].
+        destruct masked; cbn [app]; rewrite rel_tuple; cbn [rel_list]; rewrite rel_tuple, ints_rel_refl;
+          rewrite rel_atom_l; unfold atom_eq; cbn [numval]; rewrite str_eqb_refl; rewrite !rel_tuple.
+        -- rewrite Hf, Hb. reflexivity.
+        -- rewrite rel_list_atomic; auto.
   - (* sets *)
     destruct w as [| |sk' l'| | |]; try discriminate.
     assert (Hhh := rel_true_hashable _ _ Hrel).
@@ -1165,8 +1197,10 @@ Definition payload_of (fp : bool) (v p : pyval) : Prop :=
       | KDeque ml => exists d, ce = Ok d /\ p = PTuple [maxlen_val ml; d]
       | KBytearray => p = PTuple l
       | KArray c => p = PTuple [PStr c; PTuple l]
-      | KNd _ d sh => exists items, (if str_eqb d dt_obj then ce else Ok (PTuple l)) = Ok items
-                                    /\ p = PTuple [PTuple (map (fun z => PInt z) sh); PStr d; items]
+      | KNd msk d sh =>
+          exists items, (if str_eqb d dt_obj then ce else Ok (PTuple (if msk then map mfill l else l))) = Ok items
+                        /\ p = PTuple ([PTuple (map (fun z => PInt z) sh); PStr d; items]
+                                       ++ (if msk then [PTuple (map mbit l)] else []))
       end
   | PSetv sk l => hashable_iterable true (map (fun x => (x, to_hashable fp x)) l) = Ok p
   | PMap mk kvs =>
@@ -1539,22 +1573,27 @@ Proof.
         destruct (mem_str cd _); [rewrite Hwf; reflexivity|].
         destruct (mem_str cd _); [rewrite Hwf; rewrite ?orb_true_r; reflexivity|discriminate].
       * destruct Hp as (items & Hi & ->). destruct Hp' as (items' & Hi' & ->).
-        rewrite rel_tuple in Hpp. cbn [rel_list] in Hpp.
-        apply andb_true_iff in Hpp. destruct Hpp as [Hsh Hpp]. apply andb_true_iff in Hpp. destruct Hpp as [Hdt Hpp].
-        rewrite andb_true_r in Hpp. rewrite rel_tuple in Hsh. apply ints_rel_inj in Hsh.
-        rewrite rel_atom_l in Hdt. unfold atom_eq in Hdt. cbn [numval] in Hdt.
-        assert (Em : Bool.eqb m m' = true) by (destruct m, m'; simpl in Hn; try discriminate; reflexivity).
-        rewrite rel_seq_unfold. cbn [seqkind_eqb]. rewrite Em, Hdt, Hsh. cbn [andb].
-        apply str_eqb_eq in Hdt. subst dt'.
+        assert (Em : m = m') by (destruct m, m'; simpl in Hn; try discriminate; reflexivity). subst m'.
+        rewrite rel_tuple in Hpp.
         apply andb_true_iff in Hwf. destruct Hwf as [Hwf Hel]. apply andb_true_iff in Hwf. destruct Hwf as [Hwf _].
         apply andb_true_iff in Hwf. destruct Hwf as [Hmo _].
         apply andb_true_iff in Hwf'. destruct Hwf' as [Hwf' Hel']. apply andb_true_iff in Hwf'. destruct Hwf' as [Hwf' _].
         apply andb_true_iff in Hwf'. destruct Hwf' as [Hmo' _].
-        destruct (str_eqb dt dt_obj) eqn:Hobj.
-        -- rewrite andb_true_r in Hmo, Hmo'. apply negb_true_iff in Hmo, Hmo'. subst m m'.
-           eapply Hlist; eauto; discriminate.
-        -- inversion Hi; inversion Hi'; subst items items'. rewrite rel_tuple in Hpp.
-           apply rel_list_atomic_rev; auto. eapply nd_elems_atomic; eauto.
+        destruct m; cbn [app rel_list] in Hpp;
+          apply andb_true_iff in Hpp; destruct Hpp as [Hsh Hpp]; apply andb_true_iff in Hpp; destruct Hpp as [Hdt Hpp];
+          apply andb_true_iff in Hpp; destruct Hpp as [Hit Hpp];
+          rewrite rel_tuple in Hsh; apply ints_rel_inj in Hsh;
+          rewrite rel_atom_l in Hdt; unfold atom_eq in Hdt; cbn [numval] in Hdt;
+          rewrite rel_seq_unfold; cbn [seqkind_eqb Bool.eqb]; rewrite Hdt, Hsh; cbn [andb];
+          apply str_eqb_eq in Hdt; subst dt'.
+        -- cbn [andb] in Hmo, Hmo'. apply negb_true_iff in Hmo. rewrite Hmo in Hi, Hi'.
+           inversion Hi; inversion Hi'; subst items items'. rewrite rel_tuple in Hit.
+           rewrite andb_true_r in Hpp. rewrite rel_tuple in Hpp.
+           apply fill_rel_rev; auto. eapply nd_elems_atomic; eauto.
+        -- destruct (str_eqb dt dt_obj) eqn:Hobj.
+           ++ eapply Hlist; eauto; discriminate.
+           ++ inversion Hi; inversion Hi'; subst items items'. rewrite rel_tuple in Hit.
+              apply rel_list_atomic_rev; auto. eapply nd_elems_atomic; eauto.
     + cbn [tname] in Hn. rewrite tname_seq_set in Hn. discriminate.
     + cbn [tname] in Hn. rewrite tname_seq_map in Hn. discriminate.
     + unfold no_pandas in Hnp'. simpl in Hnp'. discriminate.
@@ -1662,4 +1701,42 @@ Proof.
   intros fp v w k k' Hv Hw Hnp Hnp' Hk Hk' Heq.
   unfold supported in Hv, Hw. apply andb_true_iff in Hv. destruct Hv. apply andb_true_iff in Hw. destruct Hw.
   eapply (inj_g fp v); eauto; apply sg_intro; auto.
+Qed.
+
+(* ================= reflexivity of both equalities ================= *)
+Lemma atom_eq_refl : forall a, atom_eq a a = true.
+Proof.
+  destruct a; unfold atom_eq; cbn [numval]; try apply Z.eqb_refl; try apply str_eqb_refl; try reflexivity;
+    rewrite str_eqb_refl, Z.eqb_refl; reflexivity.
+Qed.
+Lemma atoms_eq_refl : forall l, list_eqb atom_eq l l = true.
+Proof. induction l; simpl; auto. rewrite atom_eq_refl. auto. Qed.
+
+Lemma rel_refl : forall st v, rel st v v = true.
+Proof.
+  intros st v. induction v as [a|sk l IH|sk l IH|mk kvs IH|n d i x|c i] using pyval_ind2.
+  - rewrite rel_atom_l. apply atom_eq_refl.
+  - rewrite rel_seq_unfold. apply andb_true_iff. split.
+    + destruct st; [apply seqkind_eqb_refl|apply seqkind_eqb_loose; apply seqkind_eqb_refl].
+    + induction IH; simpl; auto. rewrite H. auto.
+  - rewrite rel_set_unfold. rewrite Nat.eqb_refl.
+    replace (negb st || setkind_eqb sk sk) with true by (destruct st, sk; reflexivity). cbn [andb].
+    apply forallb_forall. intros a Ha. apply existsb_exists. exists a. split; auto.
+    rewrite Forall_forall in IH. auto.
+  - rewrite rel_map_unfold.
+    replace (negb st || mapkind_eqb mk mk) with true.
+    2:{ destruct st; auto. destruct mk; simpl; auto. destruct factory; simpl; auto. symmetry. apply str_eqb_refl. }
+    cbn [andb]. rewrite Forall_forall in IH.
+    assert (Hd : forall kz, (forall kv, In kv kz -> In kv kvs) -> rel_dict st kz kz = true).
+    { intros kz Hkz. unfold rel_dict. rewrite Nat.eqb_refl. cbn [andb]. apply forallb_forall. intros kv Hkv.
+      apply existsb_exists. exists kv. split; auto. destruct (IH kv (Hkz kv Hkv)) as [H1 H2]. rewrite H1, H2. reflexivity. }
+    destruct mk.
+    + apply Hd. auto.
+    + clear Hd. induction kvs as [|kv kvs IHl]; simpl; auto.
+      destruct (IH kv) as [H1 H2]; [simpl; auto|]. rewrite H1, H2. simpl. apply IHl. intros; apply IH; simpl; auto.
+    + apply Hd. auto.
+    + rewrite rel_counter_strip. apply Hd. apply strip_incl.
+  - simpl. rewrite atom_eq_refl, str_eqb_refl, !atoms_eq_refl. reflexivity.
+  - simpl. rewrite atoms_eq_refl, andb_true_r. induction c as [|col c IHc]; simpl; auto.
+    rewrite atom_eq_refl, str_eqb_refl, atoms_eq_refl. simpl. exact IHc.
 Qed.
